@@ -391,6 +391,11 @@ instance (a : Args) (x : Ctx) : Decidable (CtorSat a x) := by
   cases specCfg a <;> simp only <;> try infer_instance
   cases a.ptype <;> simp only <;> infer_instance
 
+/-- the Number family as far as numbers are concerned: `Number`, `Magnitude`, and
+`Integer` for integer values (used to state the boundary theorems) -/
+def NumberLike (c : Cfg) (v : PyVal) : Prop :=
+  c.ptype = .number ∨ c.ptype = .magnitude ∨ (c.ptype = .integer ∧ v.isInt = true)
+
 /-! ### the oracle on observations
 
 What the harness can see of one attempted assignment: the outcome
